@@ -854,6 +854,27 @@ def scenario(name, rng, be, root):
         g.x_close(C); g.x_read(A, L1); g.x_close(A)
         g.x_read(B, x)                                         # B was opened by the caller and never closed by him
         g.x_close(B)
+    elif name == "userheld":
+        # the caller opens the linked-to file himself, then a file that links into it; closing the linking file must
+        # leave his own handle alone, and the linking file must really be closed (it is re-created afterwards)
+        Lf = g.add_file("m", b"l.cgns")
+        g.x_open(Lf, "w"); x = g.x_create(Lf, 0, b"X", b"LabelX", b"data"); g.x_close(Lf)
+        g.x_open(A, "w"); La = g.x_link(A, 0, b"La", b"l.cgns", b"/X"); Ls = g.x_link(A, 0, b"Ls", b"a.cgns", b"/T") if be == "adf" else None
+        t = g.x_create(A, 0, b"T", b"first"); g.x_close(A)
+        g.x_open(Lf, "m"); g.x_open(A, "m"); g.x_read(A, La); g.x_read(A, La)
+        if Ls is not None:
+            g.x_read(A, Ls)
+        g.x_close(A)
+        g.x_read(Lf, x); g.emit("label %d %d %s" % (Lf.fid, x, hx(b"relabelled")), "ok"); Lf.nodes[x]["label"] = b"relabelled"; g.x_read(Lf, x)
+        g.x_open(A, "m"); g.emit("label %d %d %s" % (A.fid, t, hx(b"second")), "ok"); A.nodes[t]["label"] = b"second"
+        g.x_read(A, La); g.x_read(A, t)
+        if Ls is not None:
+            g.x_read(A, Ls)                                    # by its own file name: must see the new label
+        g.x_close(A); g.x_close(Lf)
+        g.x_open(A, "r"); g.x_read(A, La)
+        if Ls is not None:
+            g.x_read(A, Ls)
+        g.x_close(A)
     elif name in ("chain100", "chain101", "chain5"):
         n = {"chain100": 100, "chain101": 101, "chain5": 5}[name]
         g.x_open(A, "w"); g.x_create(A, 0, b"T", b"LabelT", b"0123")
@@ -931,7 +952,7 @@ def scenario(name, rng, be, root):
     return g
 
 
-SCENARIOS = ["stale", "nest", "nest2", "mutual", "close9", "chain5", "chain100", "chain101", "cycle", "via", "dangling",
+SCENARIOS = ["stale", "nest", "nest2", "mutual", "close9", "userheld", "chain5", "chain100", "chain101", "cycle", "via", "dangling",
              "retarget", "search", "sep"]
 
 
@@ -1112,6 +1133,15 @@ def run_mll(exe, case):
 
 
 # ============================================================================ expectations from a script alone
+def unwritten(f, u, deep):
+    """a node dimensioned and never written: what a read returns is unspecified (ADF refuses, HDF5 gives fill values)"""
+    for k in (f.subtree(u) if deep else [u]):
+        n = f.nodes[k]
+        if n["link"] is None and n["dt"] != "MT" and n["dims"] and n["data"] is None:
+            return True
+    return False
+
+
 def expect_from_script(be, lines, impl_lines):
     """Rebuild the mirror by interpreting `lines` (a mutation is applied when the library accepted it) and compute the
     oracle's expectation for every read: used to shrink a failing history and to replay one -- no generator state, no
@@ -1194,14 +1224,16 @@ def expect_from_script(be, lines, impl_lines):
                 f = w.files.get(int(t[1])); u = int(t[2])
                 if f is not None and f.mode is not None and u in f.nodes:
                     if op == "rd":
-                        e, tr, _ = ideal_rd(w, f.fid, u, B(t[3]))
+                        e, tr, tg = ideal_rd(w, f.fid, u, B(t[3]))
                         m = dict(kind="through", trace=tr, renamed=renamed, user_open=True)
+                        if tg is not None and unwritten(w.by_path(tg[0]), tg[1], False):
+                            e = None
                     elif op == "lnk":
                         n = f.nodes[u]
                         e = "ok L:0" if n["link"] is None else "ok L:1:%s:%s" % (hx(n["link"][0]), hx(n["link"][1]))
                         m = dict(kind="lnk", user_open=True)
                     else:
-                        e = sub_line(f, u, be); m = dict(kind="dump", user_open=True)
+                        e = None if unwritten(f, u, True) else sub_line(f, u, be); m = dict(kind="dump", user_open=True)
         except (KeyError, ValueError, IndexError):
             e, m = None, None
         expect.append(e); meta.append(m)
